@@ -101,6 +101,24 @@ ENV = """
         }
         pub fn clear(&mut self) { let mut i = 0usize; while i < 3 { let old = self.items[i].take(); std::mem::forget(old); i += 1; } }
         pub fn len(&self) -> usize { let mut n = 0usize; let mut i = 0usize; while i < 3 { if self.items[i].is_some() { n += 1; } i += 1; } n }
+        pub fn entry(&mut self, k: K) -> Entry<'_, K, V> {
+            if self.contains_key(&k) { Entry::Occupied(OccupiedEntry { map: self, key: k }) } else { Entry::Vacant(VacantEntry { map: self, key: k }) }
+        }
+    }
+    /// the entry API of std's HashMap, for a tree that uses it
+    pub enum Entry<'a, K, V> { Occupied(OccupiedEntry<'a, K, V>), Vacant(VacantEntry<'a, K, V>) }
+    pub struct OccupiedEntry<'a, K, V> { pub map: &'a mut HashMap<K, V>, pub key: K }
+    pub struct VacantEntry<'a, K, V> { pub map: &'a mut HashMap<K, V>, pub key: K }
+    impl<'a, K: PartialEq, V> VacantEntry<'a, K, V> {
+        pub fn insert(self, v: V) -> &'a mut V {
+            let mut i = 0usize;
+            while i < 3 { if self.map.items[i].is_none() { self.map.items[i] = Some((self.key, v)); return &mut self.map.items[i].as_mut().unwrap().1; } i += 1; }
+            panic!("more than three open files")
+        }
+    }
+    impl<'a, K: PartialEq, V> OccupiedEntry<'a, K, V> {
+        pub fn get(&self) -> &V { let mut i = 0usize; while i < 3 { if let Some((k0, v0)) = &self.map.items[i] { if *k0 == self.key { return v0; } } i += 1; } panic!("occupied entry without a value") }
+        pub fn into_mut(self) -> &'a mut V { self.map.get_mut(&self.key).unwrap() }
     }
 """
 
@@ -148,31 +166,34 @@ def spec(tier, seed):
         b.helper(io, text)
         b.helper(io, HELPERS)
         # ---- records of a RANDOM file
-        for rec_len, t in ((1, "quick"), (2, "quick"), (3, "quick"), (4, "thorough")):
-            b.add(io, "vk_c18_records_len%d" % rec_len, """
+        for rec_len, n_ops, t in ((1, 4, "quick"), (2, 4, "quick"), (3, 3, "quick"), (2, 5, "thorough"), (4, 4, "thorough")):
+            b.add(io, "vk_c18_records_len%d_%dops" % (rec_len, n_ops), """
         let mut fi = FileInfo::new_random(File::blank(0), %(l)d);
-        // two PUTs to any records 1..3, then GET of any record 1..3
-        let r1: usize = kani::any();
-        let r2: usize = kani::any();
-        let r3: usize = kani::any();
-        kani::assume(r1 >= 1 && r1 <= 3 && r2 >= 1 && r2 <= 3 && r3 >= 1 && r3 <= 3);
-        let b1: [u8; %(l)d] = kani::any();
-        let b2: [u8; %(l)d] = kani::any();
-        match fi.put_record(r1, &b1) { Ok(()) => {}, Err(e) => { std::mem::forget(e); assert!(false); } }
-        match fi.put_record(r2, &b2) { Ok(()) => {}, Err(e) => { std::mem::forget(e); assert!(false); } }
-        let got = match fi.get_record(r3) { Ok(v) => v, Err(e) => { std::mem::forget(e); assert!(false); return; } };
-        // a record PUT is what GET of the same number returns, whatever other records were written meanwhile; an unwritten record reads as zeros
-        assert!(got.len() == %(l)d);
+        // any sequence of PUTs and GETs on the records 1..3, against a reference: three records, zeros until written
+        let mut model: [[u8; %(l)d]; 3] = [[0; %(l)d]; 3];
         let mut k = 0usize;
-        while k < %(l)d {
-            let want = if r3 == r2 { b2[k] } else if r3 == r1 { b1[k] } else { 0 };
-            assert!(got[k] == want);
+        while k < %(ops)d {
+            let is_put: bool = kani::any();
+            let r: usize = kani::any();
+            kani::assume(r >= 1 && r <= 3);
+            if is_put {
+                let bytes: [u8; %(l)d] = kani::any();
+                match fi.put_record(r, &bytes) { Ok(()) => {}, Err(e) => { std::mem::forget(e); assert!(false); } }
+                model[r - 1] = bytes;
+            } else {
+                let got = match fi.get_record(r) { Ok(v) => v, Err(e) => { std::mem::forget(e); assert!(false); return; } };
+                // a record PUT is what GET of the same number returns, whatever other records were read or written meanwhile; an unwritten
+                // record reads as zeros
+                assert!(got.len() == %(l)d);
+                let mut j = 0usize;
+                while j < %(l)d { assert!(got[j] == model[r - 1][j]); j += 1; }
+                std::mem::forget(got);
+            }
             k += 1;
         }
-        std::mem::forget(got);
         std::mem::forget(fi);
-        """ % {"l": rec_len}, unwind=14, tier=t, cost=60,
-                  bounds="record length %d; two PUTs to any of the records 1..3 with any contents, then GET of any of the records 1..3" % rec_len,
+        """ % {"l": rec_len, "ops": n_ops}, unwind=14, tier=t, cost=60 * n_ops,
+                  bounds="record length %d; every sequence of %d PUT / GET operations on the records 1..3 with any contents" % (rec_len, n_ops),
                   functions=FUNCS_R, basic="OPEN \"R.DAT\" FOR RANDOM AS #1 LEN = 2")
         b.add(io, "vk_c18_record_misuse", """
         // a record length of zero, and GET / PUT on a file that is not open FOR RANDOM
@@ -296,7 +317,7 @@ def spec(tier, seed):
     return b.build(
         tier,
         notes=notes,
-        bounds="records: record lengths 1..3 (4 thorough), records 1..3, any contents; handle table: handles 1..3, two file names, the four modes",
+        bounds="records: record lengths 1..3 (4 thorough), every sequence of 3-4 (5 thorough) PUT / GET operations on the records 1..3, any contents; handle table: handles 1..3, two file names, the four modes",
         outside="that text written with PRINT # is read back by INPUT # / LINE INPUT # (ReadInputSource is io::Result-based and exceeded 20 GB at 3 input bytes; "
                 "WritePrinter's column logic is under C16), EOF, APPEND keeping earlier content, KILL / NAME, FIELD / LSET, the mapping of std::io::Error kinds to "
                 "BASIC errors, the host file system itself (OPEN FOR RANDOM truncates an existing file: seen by reading, not decided here)",
